@@ -3,6 +3,7 @@ package impl
 import (
 	"bytes"
 	"fmt"
+	"strconv"
 	"strings"
 
 	"errors"
@@ -50,6 +51,9 @@ func runF(t []string) string {
 		return "bad-op"
 	}
 	switch t[2] {
+	case "unpack-many", "unpack-concurrently":
+		// replay of the C04 oracle's S8 phases: a BER-TLV composite fed inputs with fresh tags
+		return unpackMany(st, t[2], t[3])
 	case "pack":
 		vt, ok := ParseTree(t[3])
 		if !ok || !SetValue(f, vt) {
@@ -136,3 +140,61 @@ func runO(t []string) string {
 }
 
 var _ field.Field
+
+// ManyBody: the k-th input of the C04 oracle's S8 phases: three unknown BER tags derived from k
+// (3- and 4-byte tags), then the known tag 9A, behind a four-digit ASCII length
+func ManyBody(k int) []byte {
+	a, b, d := byte(1+k%127), byte((k/127)%128), byte((k/16129)%128)
+	body := []byte{0xDF, 0x80 | a, b, 0x01, 0x11, 0xDF, 0x80 | a, 0x80 | b, d, 0x01, 0x22, 0xFF, 0x80 | b, a, 0x00, 0x9A, 0x03, 1, 2, 3}
+	return append([]byte(fmt.Sprintf("%04d", len(body))), body...)
+}
+
+func unpackMany(st *Tree, op, arg string) string {
+	if op == "unpack-many" {
+		n, err := strconv.Atoi(arg)
+		if err != nil || n < 0 || n > 2000000 {
+			return "bad-op"
+		}
+		h0 := HeapInUse()
+		for k := 0; k < n; k++ {
+			f, _ := FieldOfTree(st)
+			if _, err := f.Unpack(ManyBody(k)); err != nil {
+				return "err"
+			}
+		}
+		if grew := int64(HeapInUse()) - int64(h0); grew > 1<<20 {
+			return fmt.Sprintf("ok retained-heap-grows %d", grew)
+		}
+		return "ok"
+	}
+	var workers, per int
+	if _, err := fmt.Sscanf(arg, "%dx%d", &workers, &per); err != nil || workers < 1 || workers > 64 || per < 0 || per > 1000000 {
+		return "bad-op"
+	}
+	done := make(chan string, workers)
+	for w := 0; w < workers; w++ {
+		go func(w int) {
+			res := "ok"
+			defer func() {
+				if r := recover(); r != nil {
+					res = "panic"
+				}
+				done <- res
+			}()
+			for k := 0; k < per; k++ {
+				f, _ := FieldOfTree(st)
+				if _, err := f.Unpack(ManyBody(1000000 + w*per + k)); err != nil {
+					res = "err"
+					return
+				}
+			}
+		}(w)
+	}
+	out := "ok"
+	for w := 0; w < workers; w++ {
+		if r := <-done; r != "ok" {
+			out = r
+		}
+	}
+	return out
+}
